@@ -131,23 +131,28 @@ theorem disconnect_ctx_stable (cfg : Cfg) (s s' : Sys) (t u : Tid) (c : DCtx)
     (s'.thr u).pc.dctx = some c ∨ (t = u ∧ (s'.thr u).pc = .user .idle) :=
   dctx_stable cfg s s' t u c hc hs
 
-/-- `graceful_flushes_then_closes`: when a thread is about to execute the final `rel` of a
-`disconnect` (program counter `dRel c`), the socket is closed; and if the disconnect was graceful
-and found the socket open, every packet that was in the queue when it acquired the lock
-(`c.snap`) has a whole frame on the wire. -/
+/-- `graceful_flushes_then_closes`: when a thread completes a `disconnect` — it is at the final
+`rel` (program counter `dRel c`) and takes that step, reaching `s'` — the socket is closed; and if
+the disconnect was graceful and found the socket open, every packet that was in the queue when it
+acquired the lock (`c.snap`, see `disconnect_ctx_set`) has a whole frame on the wire.  Both already
+hold just before the `rel`. -/
 theorem graceful_flushes_then_closes (cfg : Cfg) (progs : List (List Op))
-    (hnd : (progs.flatMap pktsOf).Nodup) (sched : List Tid) (t : Tid) (c : DCtx) :
+    (hnd : (progs.flatMap pktsOf).Nodup) (sched : List Tid) (t : Tid) (c : DCtx) (s' : Sys) :
     let s := run cfg (init progs) sched
-    (s.thr t).pc = .user (.dRel c) →
-      s.sockOpen = false ∧
-      (c.imm = false → c.open0 = true → ∀ p ∈ c.snap, p ∈ sentPkts s.wire) := by
-  intro s hpc
+    (s.thr t).pc = .user (.dRel c) → step cfg s t = some s' →
+      s'.log = s.log ++ [(t, .rel)] ∧ (s'.thr t).pc = .user .idle ∧
+      s.sockOpen = false ∧ s'.sockOpen = false ∧ s'.wire = s.wire ∧
+      (c.imm = false → c.open0 = true → ∀ p ∈ c.snap, p ∈ sentPkts s'.wire) := by
+  intro s hpc hs
   have h := reach_inv cfg progs hnd sched
+  obtain ⟨e1, e2, e3, e4⟩ := drel_step cfg s s' t c hpc hs
   have hcur : cur s = .user (.dRel c) := by
     rw [cur_of_crit h.lock t (by rw [hpc]; rfl), hpc]
-  refine ⟨h.wire.rel_closed c hcur, fun hi ho p hp => ?_⟩
+  have hcl : s.sockOpen = false := h.wire.rel_closed c hcur
+  refine ⟨e4, e3, hcl, by rw [e2]; exact hcl, e1, fun hi ho p hp => ?_⟩
   have := h.wire.snap c (by rw [hcur]; rfl) hi ho p hp
   rw [hcur] at this
+  rw [e1]
   simpa [Pc.flushing] using this
 
 /-- … and all the way through a graceful disconnect the snapshot is accounted for: each of its
@@ -336,7 +341,8 @@ graceful disconnect that found the socket open with a non-empty queue snapshot. 
 example : [Op.queued 3, Op.queued 4].Sublist (progOf exProgs 2) := by decide
 example :
     ∃ c, ((run ⟨300, 50⟩ (init exProgs) ([1, 2] ++ List.replicate 17 1)).thr 1).pc
-        = .user (.dRel c) ∧ c.imm = false ∧ c.open0 = true ∧ c.snap = [1, 3] :=
+        = .user (.dRel c) ∧ c.imm = false ∧ c.open0 = true ∧ c.snap = [1, 3] ∧
+      (step ⟨300, 50⟩ (run ⟨300, 50⟩ (init exProgs) ([1, 2] ++ List.replicate 17 1)) 1).isSome :=
   ⟨⟨false, [1, 3], [(2, 0), (2, 1)], true⟩, by decide⟩
 
 end PyCraft.C12
